@@ -407,6 +407,13 @@ func sessionWorld(seed int64, id int, so sessOpts) (*World, string) {
 				la := cast.Wrapped("lookalike", service.DID.String()+so.Lookalike, cast.Ed("lookalikekey"))
 				att.Issuer = la
 				w.Ctx.KeyResolver[la.DID.String()] = cast.Ed("lookalikekey")
+			case "shortalike":
+				// a principal whose DID is a textual PREFIX of the authority's (did:web:example.co vs did:web:example.com), with a
+				// resolvable key: it is not the authority and does not own the authority's DID
+				ad := service.DID.String()
+				sa := cast.Wrapped("shortalike", ad[:len(ad)-1], cast.Ed("shortalikekey"))
+				att.Issuer = sa
+				w.Ctx.KeyResolver[sa.DID.String()] = cast.Ed("shortalikekey")
 			case "delegate", "delegate-broken":
 				worker := cast.Ed("worker")
 				att.Issuer = worker
@@ -595,7 +602,7 @@ func init() {
 			}
 		}
 		// a non-key authority and principals / resources whose DID text extends the authority's
-		for _, iss := range []string{"authority", "lookalike", "stranger"} {
+		for _, iss := range []string{"authority", "lookalike", "shortalike", "stranger"} {
 			for _, res := range []string{"authority", "lookalike"} {
 				for _, suffix := range []string{".evil.org", ":users:mallory"} {
 					for pos := 1; pos <= 2; pos++ {
@@ -636,7 +643,9 @@ func init() {
 				id++
 			}
 		}
-		return finishWorlds(o, "C04", worlds, labels, st, 16, nil)
+		dd, dr := disguiseScenarios(o.seed)
+		return finishWorlds(o, "C04", worlds, labels, st, 16, map[string]any{"direct_violations": dd, "disguised_token_runs": dr,
+			"direct_oracle": "tokens presented under a link that is not the CID of their bytes (another token's link; raw / CIDv0 / dag-json re-labelling) contribute nothing"})
 	}
 }
 
@@ -785,7 +794,10 @@ func init() {
 		if err := writeBatchCases(o.out, "cases_C05srv", bcases, 8); err != nil {
 			return err
 		}
-		return finishWorlds(o, "C05", worlds, labels, st, 16, map[string]any{"worlds_also_run_through_server": len(bcases), "revocation_histories_on_one_server": nhist})
+		dd, dr := disguiseScenarios(o.seed + 1)
+		return finishWorlds(o, "C05", worlds, labels, st, 16, map[string]any{"worlds_also_run_through_server": len(bcases), "revocation_histories_on_one_server": nhist,
+			"direct_violations": dd, "disguised_token_runs": dr,
+			"direct_oracle": "a revoked delegation stays revoked under every re-labelling of its root block (raw / CIDv0 / dag-json CID over the same multihash)"})
 	}
 }
 
@@ -1151,7 +1163,7 @@ func init() {
 	gens["C03"] = func(o genOpts) error {
 		st := newWorldStats()
 		labels := map[int]string{}
-		positions := []string{"invocation", "proof1", "proof2", "proof3", "proof4", "attestation", "attest-parent", "resolver-proof", "proof1-twin", "proof2-twin", "proof1-twin-noexp", "proof2-twin-noexp"}
+		positions := []string{"invocation", "proof1", "proof2", "proof3", "proof4", "attestation", "attest-parent", "resolver-proof", "proof1-twin", "proof2-twin", "proof1-twin-noexp", "proof2-twin-noexp", "attestation-twin"}
 		expOffs := []int{-9, -8, -7, -100000, -1, 0, 1, 100000} // -9 unset, -8 / -7 the absolute values 0 and 1
 		nbfOffs := []int{-9, -100000, -1, 0, 1, 100000}         // -9: unset
 		var todo []timedCase
@@ -1311,14 +1323,19 @@ func timedWorld(seed int64, id int, tc timedCase, t int) (*World, string) {
 	}
 	far := t + 1000000
 	switch tc.pos {
-	case "attestation", "attest-parent":
+	case "attestation", "attest-parent", "attestation-twin":
 		so := sessOpts{Attested: "this", AttIssuer: "authority", Resource: "authority", Window: "valid", Pos: 2, Resolver: "absent", Now: t}
+		if tc.pos == "attestation-twin" {
+			// the attestation under test is cited AFTER a long-expired attestation of the same token: the stale one contributes
+			// nothing and takes nothing away
+			so.BadDecoys = 1
+		}
 		if tc.pos == "attest-parent" {
 			so.AttIssuer = "delegate"
 		}
 		w, _ := sessionWorld(seed, id, so)
 		for _, sp := range w.Specs {
-			if (tc.pos == "attestation" && sp.Name == "att") || (tc.pos == "attest-parent" && sp.Name == "attparent") {
+			if ((tc.pos == "attestation" || tc.pos == "attestation-twin") && sp.Name == "att") || (tc.pos == "attest-parent" && sp.Name == "attparent") {
 				apply(sp)
 			}
 		}
